@@ -3,6 +3,7 @@ CONSTANTS
  Variants <- MCVariants
  NBk = 4
  Inits <- MCInits
+ RouteInits <- MCRouteInits
  Runs = 1
  QueuePersists = FALSE
  Crash1 <- MCNone
@@ -15,5 +16,6 @@ CONSTANTS
  DevSeqOpenEarly = FALSE
  DevLinkDirect = FALSE
  DevBackupCount = FALSE
+ DevRouteDiscard = FALSE
 INVARIANT NoEarlyEffect
 CHECK_DEADLOCK FALSE
